@@ -10,6 +10,7 @@ mod parse;
 mod place;
 mod recov;
 mod repl;
+mod repro;
 mod resp;
 mod shard;
 mod shard_plain;
@@ -65,6 +66,7 @@ fn main() {
         "conn" => conn::main(rest),
         "parse" => parse::main(rest),
         "image" => image::main(rest),
+        "repro" => repro::main(rest),
         m => {
             eprintln!("unknown module {m}");
             2
